@@ -6,8 +6,8 @@
 static const uint8_t BIASED[] = {0x00, 0x7f, 0x80, 0xff, 0x81, 0x82, 0x84, 0x1f, 0x3f, 0x20, 0x30, 0xa0, '<', '>', '/', '&', ';',
                                  0x01, 0x02, 0x03, 0x04, 0x05, 0x07, 0x08, 0x10, 0x40, 0xc0, 0xfe};    // small lengths / counts / unused-bits octets, determinant prefixes
 
-const char *TRANSPORT_FAULTS[] = {"bitflip", "overwrite", "truncate", "drop", "dup", "swap", "insert", "lenblow", "splice", "garbage", "token", "refragment"};
-const int N_TRANSPORT_FAULTS = 12;
+const char *TRANSPORT_FAULTS[] = {"bitflip", "overwrite", "truncate", "drop", "dup", "swap", "insert", "lenblow", "splice", "garbage", "token", "refragment", "tlvshuffle"};
+const int N_TRANSPORT_FAULTS = 13;
 
 // syntax tokens a damaged or hostile stream may contain at any position: lexical corner cases of XML text and of TLV / length octets
 static const char *const XML_TOKENS[] = {"&#;", "&#0;", "&#x0;", "&#x;", "&#xFFFFFFFFF;", "&#4294967296;", "&#1114112;", "&#xD800;", "&nosuch;", "&", "&amp", "&lt;", "<", "</", "</>", "<>", "<!--", "-->",
@@ -68,6 +68,55 @@ static bool uper_refragment(Bytes &b, Rng &r) {
     return false;
 }
 
+// BER structure-aware damage: the stream is parsed into its TLV tree, one constructed node gets a child duplicated, two children
+// swapped, a child removed or a child moved to the end, and the tree is written back with correct definite lengths - a well-formed
+// encoding of a value the type does not allow (members repeated, out of order or missing).
+struct TNode { Bytes ident; bool constructed = false; Bytes content; std::vector<TNode> kids; };
+static bool tnode_parse(const uint8_t *p, size_t n, TNode &o, int depth, size_t *used) {
+    Tlv t;
+    if(depth > 24 || !tlv_parse(p, n, t)) return false;
+    size_t idl = 1; if((p[0] & 0x1f) == 0x1f) { while(idl < t.hdr && (p[idl] & 0x80)) idl++; idl++; }
+    if(idl > t.hdr) return false;
+    o.ident.assign(p, p + idl); o.constructed = t.constructed;
+    const uint8_t *c = p + t.hdr; size_t clen = t.len;
+    if(t.constructed) {
+        size_t off = 0;
+        while(off < clen) { TNode k; size_t u = 0; if(!tnode_parse(c + off, clen - off, k, depth + 1, &u) || !u) return false; o.kids.push_back(k); off += u; if(o.kids.size() > 4096) return false; }
+    } else o.content.assign(c, c + clen);
+    *used = t.total;
+    return true;
+}
+static void tnode_write(const TNode &n, Bytes &o) {
+    Bytes body;
+    if(n.constructed) for(auto &k : n.kids) tnode_write(k, body); else body = n.content;
+    o.insert(o.end(), n.ident.begin(), n.ident.end());
+    size_t len = body.size();
+    if(len < 0x80) o.push_back((uint8_t)len);
+    else { uint8_t tmp[8]; int k = 0; size_t v = len; do { tmp[k++] = v & 0xff; v >>= 8; } while(v); o.push_back((uint8_t)(0x80 | k)); while(k--) o.push_back(tmp[k]); }
+    o.insert(o.end(), body.begin(), body.end());
+}
+static void tnode_collect(TNode &n, std::vector<TNode *> &out) { if(n.constructed && !n.kids.empty()) { out.push_back(&n); for(auto &k : n.kids) tnode_collect(k, out); } }
+static bool ber_tlv_shuffle(Bytes &b, Rng &r) {
+    if(b.size() < 4 || b.size() > 20000) return false;
+    TNode root; size_t used = 0;
+    if(!tnode_parse(b.data(), b.size(), root, 0, &used) || used == 0) return false;
+    Bytes tail(b.begin() + used, b.end());
+    std::vector<TNode *> cs; tnode_collect(root, cs);
+    if(cs.empty()) return false;
+    TNode &c = *cs[r.below(cs.size())];
+    size_t nk = c.kids.size(), i = (size_t)r.below(nk), j = (size_t)r.below(nk);
+    switch(r.below(4)) {
+    case 0: { TNode copy = c.kids[i]; c.kids.insert(c.kids.begin() + (r.chance(1, 2) ? i + 1 : j), copy); break; }      // a member sent twice
+    case 1: if(nk < 2 || i == j) return false; std::swap(c.kids[i], c.kids[j]); break;                                   // out of order
+    case 2: c.kids.erase(c.kids.begin() + i); break;                                                                    // missing
+    default: { TNode m = c.kids[i]; c.kids.erase(c.kids.begin() + i); c.kids.push_back(m); break; }                      // moved to the end
+    }
+    Bytes o; tnode_write(root, o); o.insert(o.end(), tail.begin(), tail.end());
+    if(o == b) return false;
+    b.swap(o);
+    return true;
+}
+
 static void seg(Rng &r, size_t n, size_t &a, size_t &len) {
     a = n ? (size_t)r.below(n) : 0;
     len = n ? 1 + (size_t)r.below(std::min<size_t>(n - a, r.chance(1, 4) ? n : 16)) : 0;
@@ -100,6 +149,7 @@ void transport_damage(Bytes &b, Rng &r, const Bytes *other, std::vector<std::str
                 /* fall through */
         case 9: { size_t k = 1 + (size_t)r.below(24); b.clear(); for(size_t i = 0; i < k; i++) b.push_back((uint8_t)r.below(256)); break; }
         case 11: if(!uper_refragment(b, r)) continue; break;
+        case 12: if(!ber_tlv_shuffle(b, r)) continue; break;
         case 10: { // a syntax token at a seeded position (inserted, or written over what is there)
                   bool xml = n && (b[0] == '<' || b[0] == ' ' || b[0] == '\n');
                   const char *t; size_t tl;
